@@ -300,8 +300,14 @@ def extra_rules(ctx):
             ctx.finding(f'R6/{short}/unsorted-probes', f'IndexData::{short} probes the index in the order of the IN list (no sort of the probe values '
                         'before the lookups): the rows come back in list order, but execute_index_scan reports them as sorted by the index key', g_.loc)
 
+    range_pairing_rule(ctx, 'C02.R7')
+
+
+def range_pairing_rule(ctx, rid='C02.R7'):
+    from . import shared
+    prog = ctx.prog
     # ------------------------------------------------------------------ R7 bound and inclusiveness travel together
-    ctx.rule('C02.R7', 'extract_range_predicate: every block that writes .start (.end) of an existing RangePredicate also writes '
+    ctx.rule(rid, 'extract_range_predicate: every block that writes .start (.end) of an existing RangePredicate also writes '
              '.inclusive_start (.inclusive_end) of the same value, or is dominated by / dominates a block that does under the same conditions')
     er = ctx.fn('vibesql_executor::select::scan::index_scan::predicate::extract_range_predicate')
     ge = cfg(er)
@@ -328,11 +334,13 @@ def extra_rules(ctx):
             for pb in writes.get((loc, partner), []):
                 if pb == bi or shared.deciding_conditions(er, pb, sym7) == c1:
                     ok = True
-            ctx.instance(f'R7/{er.names.get(loc, loc)}{fld}@{n7}', {'rule': 'C02.R7', 'paired_flag_write': ok})
+            ctx.instance(f'{rid.split(".")[-1]}/{er.names.get(loc, loc)}{fld}@{n7}', {'rule': rid, 'paired_flag_write': ok})
             if not ok:
-                ctx.finding(f'R7/{fld[1:]}-without-flag', f'extract_range_predicate replaces the {fld[1:]} bound of a merged range without taking over '
+                ctx.finding(f'{rid.split(".")[-1]}/{fld[1:]}-without-flag', f'extract_range_predicate replaces the {fld[1:]} bound of a merged range without taking over '
                             f'{partner[1:]} under the same conditions: `a < 20 AND a >= 10` scans (10, 20) instead of [10, 20)', f'{er.file}:{er.line}')
-    ctx.floor('C02.R7 bound writes on existing RangePredicate values', n7, 2)
+    ctx.floor(f'{rid} bound writes on existing RangePredicate values', n7, 2)
+
+
 
 
 def _split_top(e):
